@@ -27,7 +27,7 @@
 (* return a record [t, n, st, dr]: new table, counter, "ok"/"unwound" and  *)
 (* the set of element ids dropped by a scope guard.                        *)
 (***************************************************************************)
-EXTENDS Naturals, Integers, Sequences, FiniteSets, TLC
+EXTENDS Naturals, Integers, Sequences, FiniteSets, TLC, Bitwise
 
 CONSTANT W          \* group width: 16 (SSE2), 8 (portable); 2 and 4 for small-scope models
 
@@ -117,10 +117,20 @@ FindInsertSlotRec(c, m, p, stride) ==
      ELSE FindInsertSlotRec(c, m, NextPos(p, stride + W, m), stride + W)
 FindInsertSlot(c, m, h) == FindInsertSlotRec(c, m, Pos0(h, m), 0)
 
+(* Group::match_tag: exact on the SIMD back-ends.  The portable 8-byte word scanner (generic.rs) may additionally report
+   a byte that differs from the tag only in its lowest bit, above a true match (HbGroup.GenMatchTag, checked against the
+   definition in MC_group); the false positive is absorbed by the key comparison and is observable only under an
+   unlawful hasher, where STRICT validation of the portable build needs it. *)
+RECURSIVE TmBorrow(_, _, _, _)
+TmBorrow(c, p, tag, i) == IF i = 0 THEN 0 ELSE IF (c[p + i - 1] ^^ tag) < 1 + TmBorrow(c, p, tag, i - 1) THEN 1 ELSE 0
+TagMatch(c, p, tag) ==
+  IF W # 8 THEN {i \in 0..(W-1) : c[p + i] = tag}
+  ELSE {i \in 0..(W-1) : ((c[p + i] ^^ tag) + 256 - 1 - TmBorrow(c, p, tag, i)) % 256 >= 128 /\ (c[p + i] ^^ tag) < 128}
+
 (* find_inner :1893 with a lawful eq on the key class: index or -1 *)
 RECURSIVE FindRec(_, _, _, _, _, _, _)
 FindRec(c, d, m, k, tag, p, stride) ==
-  LET M == {i \in 0..(W-1) : c[p + i] = tag /\ EK(d[(p + i) % (m + 1)]) = k}
+  LET M == {i \in TagMatch(c, p, tag) : EK(d[(p + i) % (m + 1)]) = k}
   IN IF M # {} THEN (p + Min(M)) % (m + 1)
      ELSE IF HasEmpty(c, p) THEN -1
      ELSE FindRec(c, d, m, k, tag, NextPos(p, stride + W, m), stride + W)
@@ -129,7 +139,7 @@ Find(t, k, h) == FindRec(t.ctrl, t.data, t.mask, k, h.tag, Pos0(h, t.mask), 0)
 (* find_inner with an arbitrary predicate given as the SET of bucket indices whose element it accepts *)
 RECURSIVE FindPredRec(_, _, _, _, _, _)
 FindPredRec(c, m, acc, tag, p, stride) ==
-  LET M == {i \in 0..(W-1) : c[p + i] = tag /\ ((p + i) % (m + 1)) \in acc}
+  LET M == {i \in TagMatch(c, p, tag) : ((p + i) % (m + 1)) \in acc}
   IN IF M # {} THEN (p + Min(M)) % (m + 1)
      ELSE IF HasEmpty(c, p) THEN -1
      ELSE FindPredRec(c, m, acc, tag, NextPos(p, stride + W, m), stride + W)
@@ -138,7 +148,7 @@ FindPred(t, acc, h) == FindPredRec(t.ctrl, t.mask, acc, h.tag, Pos0(h, t.mask), 
 (* find_or_find_insert_slot_inner :1679 -- <<found, index>> *)
 RECURSIVE FoFisRec(_, _, _, _, _, _, _, _)
 FoFisRec(c, d, m, k, tag, p, stride, slot) ==
-  LET M == {i \in 0..(W-1) : c[p + i] = tag /\ EK(d[(p + i) % (m + 1)]) = k}
+  LET M == {i \in TagMatch(c, p, tag) : EK(d[(p + i) % (m + 1)]) = k}
       i0 == LowestSpecial(c, p)
       slot2 == IF slot = -1 /\ i0 < W THEN (p + i0) % (m + 1) ELSE slot
   IN IF M # {} THEN <<TRUE, (p + Min(M)) % (m + 1)>>
@@ -148,7 +158,7 @@ FoFis(t, k, h) == FoFisRec(t.ctrl, t.data, t.mask, k, h.tag, Pos0(h, t.mask), 0,
 
 RECURSIVE FoFisPredRec(_, _, _, _, _, _, _)
 FoFisPredRec(c, m, acc, tag, p, stride, slot) ==
-  LET M == {i \in 0..(W-1) : c[p + i] = tag /\ ((p + i) % (m + 1)) \in acc}
+  LET M == {i \in TagMatch(c, p, tag) : ((p + i) % (m + 1)) \in acc}
       i0 == LowestSpecial(c, p)
       slot2 == IF slot = -1 /\ i0 < W THEN (p + i0) % (m + 1) ELSE slot
   IN IF M # {} THEN <<TRUE, (p + Min(M)) % (m + 1)>>
@@ -160,7 +170,7 @@ FoFisPred(t, acc, h) == FoFisPredRec(t.ctrl, t.mask, acc, h.tag, Pos0(h, t.mask)
    stopping after the first group containing EMPTY *)
 RECURSIVE IterHashRec(_, _, _, _, _, _)
 IterHashRec(c, m, tag, p, stride, acc) ==
-  LET Ms == {i \in 0..(W-1) : c[p + i] = tag}
+  LET Ms == TagMatch(c, p, tag)
       RECURSIVE Asc(_, _)
       Asc(S, a) == IF S = {} THEN a ELSE Asc(S \ {Min(S)}, Append(a, (p + Min(S)) % (m + 1)))
       acc2 == Asc(Ms, acc)
